@@ -77,10 +77,16 @@ def jobs(tier):
 
 
 PROP = {
-    "level_text": "Bounded symbolic model checking of the real ContentReader.Read / readNextLine / parseComments / emptyCurrentLine: two-run non-interference against a reference that knows only the four documented exclusion forms.",
-    "level_note": "comments.Parse is cut.",
+    "level_text": "Bounded symbolic model checking of the real parser.ContentReader (Read / readNextLine / parseComments / emptyCurrentLine): two-run non-interference and an insertion lemma against a reference that knows only the four documented exclusion forms; the solver decides every assertion for all line bytes, comment types and offsets within the stated shapes.",
+    "level_note": "comments.Parse is cut: per line nothing or one comment of symbolic type/offset (over-approximates the grammar, which is C07-G; at most one comment per physical line); bufio.Reader.ReadBytes is an engine intrinsic over the file bytes; the claim stops at the byte stream, content lines, file-level comments, diagnostics and line count the reader produces (rules, positions and problems are a function of those). P0 (excluded text holds no pint comment) holds; under P1 four classes of genuine violations are guarded by signatures (notes/C10.md).",
     "runs": [{"pkg": "./internal/parser", "harness": ["harness/C10/mask.go"], "intmode": True, "jobs": jobs}],
-    "bounds": {},
-    "assumptions": [],
-    "outside": [],
+    "bounds": {"lines": "quick: 4 (P0), 3 (P1), 2 + segment (insertion); thorough: 5 (P0), 4 (P1), 3 + segment", "bytes per line": "2 (variants 0, 1, 3), symbolic, no newline inside",
+               "comment per line": "<= 1, class per line is a job parameter (none / not collected / collected / ignore-file), type and offset symbolic inside the class",
+               "read buffer": "64, 3, 2 (thorough also 1) bytes", "last line": "terminated and unterminated", "inserted segment": "begin + k<=2 payload + end; next-line + 1 payload; one line with ignore/line"},
+    "assumptions": ["comments.Parse returns at most one comment per physical line (parseComment appends once; C07-G asserts exactly one on lines with two '#' comments)",
+                    "payload bytes are not newlines",
+                    "P1 payload excludes ignore/file anywhere and ignore/end inside begin/end (delimiters by definition) and ignore/line on a line already skipped by ignore/next-line (only keeps its own comment text in the stream)",
+                    "after an ignore/file diagnostic only comments, diagnostics and the line count are compared under P1 (discovery.readRules returns at the first diagnostic)",
+                    "A's excluded lines are comment-free; agreement of arbitrary payload pairs follows by transitivity of equality"],
+    "outside": ["CRLF line ends, non-ASCII text, bufio buffering effects on very long lines", "how yaml.v3 consumes the stream and attaches comments", "Read with len(b) < cap(b)"],
 }
